@@ -21,6 +21,12 @@ COMPILERS = {"rel": "g++", "asan": "clang++", "tsan": "clang++"}
 # property table. engine "rc": a rapidcheck executable built in the `rel` flavour.
 # quick/thorough: (multiplier on each sub-check's base case count, number of parallel seeds)
 PROPS = {
+    "C16": dict(engine="rc", exe="c16", quick=(1, 4), thorough=(20, 16),
+                assumptions=["the native reference world receives exactly the same sequence of calls as the wrapped one (random models draw per call)",
+                             "declaration files are observed by listing a scratch working directory"]),
+    "C09": dict(engine="rc", exe="c09", quick=(1, 4), thorough=(20, 16),
+                assumptions=["2D and 3D answers are compared to 1e-7 relative (the mapping is recomputed independently, so the mapped point can differ by rounding); mismatches next to a discontinuity of the 3D answer itself are skipped",
+                             "velocity convention asserted for cartesian worlds only, as in the statement"]),
     "C04": dict(engine="rc", exe="c04", quick=(1, 6), thorough=(15, 16),
                 assumptions=["boundary points are asserted only where coordinates are exactly representable (cartesian lattice); elsewhere a 1e-9 relative band is skipped",
                              "plumes are kept away from the +-180 meridian here (longitude aliases of plumes belong to C08)"]),
